@@ -9,12 +9,12 @@ import logging
 from harness import gallina as G
 
 ID = "C02"
-COQ_DIRS = ["C02"]
+COQ_DIRS = ["C02", "C29"]
 PROPERTY_FILE = "C02/Property.v"
 RUN_IMPORTS = "From TV Require Import C02.Model C02.Client C02.Run."   # extended below with the SRV / DATE constants
-RUN_FN = "run_case"
-CHECK_FN = "check_case"
-INPUT_TYPE = "input"
+RUN_FN = "run_case2"
+CHECK_FN = "check_case2"
+INPUT_TYPE = "input2"
 
 VSTART = 1000000.0
 
@@ -54,7 +54,7 @@ def quiet_logs():
         _quiet.append(1)
 
 
-def make_app(prog, early):
+def make_app(prog, early, compress=False):
     from tornado.web import Application, RequestHandler, stream_request_body
 
     class H(RequestHandler):
@@ -80,7 +80,7 @@ def make_app(prog, early):
         def get(self):
             self.write(b"2")
 
-    return Application([("/", H), ("/e", E), ("/second", Second)])
+    return Application([("/", H), ("/e", E), ("/second", Second)], compress_response=bool(compress))
 
 
 def request_bytes(case):
@@ -92,6 +92,8 @@ def request_bytes(case):
         lines.append("Connection: " + case["conn"])
     if case["inm"] is not None:
         lines.append("If-None-Match: " + case["inm"])
+    if case.get("comp") not in (None, "-"):
+        lines.append("Accept-Encoding: " + case["comp"])
     body = b""
     if case["body"] == "cl":
         lines.append("Content-Length: 3")
@@ -145,7 +147,7 @@ def drive(case, second=False, pipelined=False, split_body=False):
         # callbacks that raise inside the event loop are recorded, not printed (see NOTES.md: a completed
         # _write_future is completed again by _on_write_complete after a write on a closed stream)
         loop.set_exception_handler(lambda lp, ctx: LOOP_ERRORS.append(type(ctx.get("exception")).__name__))
-        srv = HTTPServer(make_app(case["prog"], case["early"]), no_keep_alive=case["nka"])
+        srv = HTTPServer(make_app(case["prog"], case["early"], case.get("comp") is not None), no_keep_alive=case["nka"])
         s = _stream_class()()
         s.blocked = wmode != "sync"
         srv.handle_stream(s, ("1.2.3.4", 5))
@@ -161,13 +163,59 @@ def drive(case, second=False, pipelined=False, split_body=False):
                 await settle(12)
             out.append((s.take_sent(), s.closed()))
         return out
-    return run_virtual(scenario, start=VSTART)
+    if case.get("comp") is None:
+        return run_virtual(scenario, start=VSTART)
+    # compress_response: tornado.web's gzip.GzipFile is replaced by the toy framing codec of the C29 model
+    import types
+    import tornado.web as W
+    from harness.props.c29 import ToyGzipFile
+    saved = W.gzip
+    W.gzip = types.SimpleNamespace(GzipFile=ToyGzipFile)
+    try:
+        return run_virtual(scenario, start=VSTART)
+    finally:
+        W.gzip = saved
+
+
+def project(wire, closed):
+    """status, Content-Length / Content-Encoding / Transfer-Encoding / Vary field values, de-chunked body, closed"""
+    if not wire:
+        return G.Tag("NoHeaders")
+    head, sep, rest = wire.partition(b"\r\n\r\n")
+    lines = head.split(b"\r\n")
+    if not sep or not lines[0].startswith(b"HTTP/1.1 "):
+        return G.Tag("Garbage")
+    status = int(lines[0][9:12])
+    fields = {}
+    for ln in lines[1:]:
+        n, _, v = ln.partition(b": ")
+        fields.setdefault(n.lower(), []).append(v.decode("latin-1"))
+    te = fields.get(b"transfer-encoding", [])
+    body = rest
+    if te == ["chunked"]:
+        body, pos = b"", 0
+        while True:
+            eol = rest.index(b"\r\n", pos)
+            n = int(rest[pos:eol], 16)
+            if n == 0:
+                break
+            body += rest[eol + 2:eol + 2 + n]
+            pos = eol + 2 + n + 2
+    if status == 500:
+        return G.Tag("AssertionError")        # compress cases never set 500 themselves
+    return [status, fields.get(b"content-length", []), fields.get(b"content-encoding", []), te,
+            fields.get(b"vary", []), body, closed]
 
 
 def run_impl(case):
-    out = drive(case)
-    w, closed = out[-1]
-    return [b"".join(o[0] for o in out), closed]
+    if case.get("comp") is None:
+        out = drive(case)
+        return [b"".join(o[0] for o in out), out[-1][1]]
+    res = []
+    for c in (case, dict(case, meth="GET")):
+        out = drive(c)
+        res.append(project(b"".join(o[0] for o in out), out[-1][1]))
+    return res
 
 
 # ---------------------------------------------------------------- Gallina rendering
@@ -187,6 +235,8 @@ def lb(s):
 
 def gop(o):
     k = o[0]
+    if k == "W" and len(o[1]) > 200 and len(set(o[1])) == 1:
+        return "Write (repeat %s %s)" % (G.gn(ord(o[1][0])), G.gnat(len(o[1])))
     if k == "S":
         return "Status %s" % G.gn(o[1])
     if k == "H":
@@ -223,7 +273,9 @@ def greq(case):
 
 def coq_input(case):
     srv, date = env_values()
-    return "((SRV, DATE, %s), %s, %s)" % (sha_table(case["prog"]), greq(case), G.glist([gop(o) for o in case["prog"]], "op"))
+    comp = case.get("comp")
+    gcomp = "(@None (option bytes))" if comp is None else "(Some %s)" % G.goption(None if comp == "-" else comp, lb, "bytes")
+    return "(((SRV, DATE, %s), %s, %s), %s)" % (sha_table(case["prog"]), greq(case), G.glist([gop(o) for o in case["prog"]], "op"), gcomp)
 
 
 def _preamble():
@@ -235,9 +287,45 @@ RUN_IMPORTS = RUN_IMPORTS + " " + _preamble()
 
 
 # ---------------------------------------------------------------- generator
-def mk(meth="GET", ver="1.1", conn=None, inm=None, body="none", nka=False, early=False, prog=(), wmode="sync"):
+def mk(meth="GET", ver="1.1", conn=None, inm=None, body="none", nka=False, early=False, prog=(), wmode="sync", comp=None):
+    """comp: None = no output transform; "gzip"/"identity"/... = compress_response=True with that Accept-Encoding;
+    "-" = compress_response=True without an Accept-Encoding header"""
     return {"meth": meth, "ver": ver, "conn": conn, "inm": inm, "body": body, "nka": nka, "early": early,
-            "prog": [list(o) for o in prog], "wmode": wmode}
+            "prog": [list(o) for o in prog], "wmode": wmode, "comp": comp}
+
+
+COMP_PROGS = [
+    [("W", "hello")],
+    [("W", "hello"), ("F",)],
+    [("W", "hello"), ("F",), ("W", "world")],
+    [("F",), ("W", "hello")],
+    [("S", 404), ("W", "nf"), ("F",)],
+    [("H", "Content-Type", "image/png"), ("W", "hello"), ("F",)],
+    [("H", "Content-Type", "application/json; charset=UTF-8"), ("W", "{}"), ("F",), ("W", "\xff")],
+    [("H", "Content-Encoding", "br"), ("W", "hello"), ("F",)],
+    [("A", "Vary", "Cookie"), ("W", "hello")],
+    [("S", 204)],
+    [("S", 304), ("F",)],
+    [],
+]
+
+
+def compress_cases(tier):
+    """the output-transform dimension: compress_response on x Accept-Encoding x HEAD/GET x version x body sizes
+    around GZipContentEncoding.MIN_LENGTH x flush before finish"""
+    out = []
+    vers = [("1.1", None), ("1.0", "keep-alive")] if tier == "quick" else [("1.1", None), ("1.1", "close"), ("1.0", "keep-alive"), ("1.0", None)]
+    aes = ["gzip", "-"] if tier == "quick" else ["gzip", "-", "identity", "deflate, gzip"]
+    for meth in ("HEAD", "GET"):
+        for ver, conn in vers:
+            for ae in aes:
+                for prog in COMP_PROGS:
+                    out.append(mk(meth, ver, conn, prog=prog, comp=ae))
+            for n in ((1023, 1024) if tier == "quick" else (1023, 1024, 1025, 1100)):
+                out.append(mk(meth, ver, conn, prog=[("W", "A" * n)], comp="gzip"))
+                if tier != "quick":
+                    out.append(mk(meth, ver, conn, prog=[("W", "A" * (n - 1000)), ("W", "B" * 1000)], comp="gzip"))
+    return out
 
 
 def case_from_json(c):
@@ -351,6 +439,7 @@ def gen_cases(rng, tier):
             for prog in itertools.product(SMALL_OPS, repeat=L):
                 for (m, v, c) in SMALL_REQ[:3]:
                     out.append(mk(m, v, c, None, "cl" if m == "POST" else "none", False, False, prog))
+        out += compress_cases(tier)
         for _ in range(500):
             out.append(rand_case(rng))
         for _ in range(150):
@@ -363,6 +452,7 @@ def gen_cases(rng, tier):
         for prog in itertools.product([("S", 204), ("W", "x"), ("W", ""), ("F",), ("X",), ("H", "Content-Length", "1")], repeat=4):
             for (m, v, c) in SMALL_REQ[:3]:
                 out.append(mk(m, v, c, None, "none", False, False, prog))
+        out += compress_cases(tier)
         for _ in range(2500):
             out.append(rand_case(rng))
         for _ in range(1500):
@@ -397,6 +487,9 @@ def corpus_cases():
         mk("POST", "1.1", None, body="cl", early=True, prog=[("H", "Content-Length", "3"), ("W", "x"), ("F",)], wmode="before"),
         mk("POST", "1.1", None, body="cl", early=True, prog=[("H", "Content-Length", "3"), ("W", "x"), ("F",)], wmode="after"),
         mk("GET", "1.1", None, prog=[("W", "x"), ("F",), ("W", "y")], wmode="after"),
+        # output transform: HEAD must advertise what GET sends (seeded change C02_3)
+        mk("HEAD", "1.1", None, prog=[("W", "A" * 1024)], comp="gzip"),
+        mk("HEAD", "1.1", None, prog=[("W", "hello"), ("F",), ("W", "world")], comp="gzip"),
         mk("GET", "1.1", None, prog=[("H", "Bad Name", "v"), ("F",)]),
         mk("GET", "1.1", None, prog=[("H", "Content-Length", "abc"), ("W", "x")]),
     ]
@@ -416,13 +509,14 @@ def classify(case, o):
     ks = [x[0] for x in p]
     yield "len=%d" % len(p)
     yield "writes=" + case.get("wmode", "sync")
+    yield "compress_response=" + ("off" if case.get("comp") is None else "on/" + case["comp"])
     if "F" in ks:
         yield "has-flush"
     if "X" in ks:
         yield "has-finish"
     if case["inm"] is not None:
         yield "if-none-match"
-    if isinstance(o, list) and len(o) == 2 and isinstance(o[0], bytes):
+    if case.get("comp") is None and isinstance(o, list) and len(o) == 2 and isinstance(o[0], bytes):
         w = o[0]
         yield "status=" + (w[9:12].decode("latin-1") if w.startswith(b"HTTP/1.1 ") else "none")
         yield "framing=" + ("chunked" if b"\r\nTransfer-Encoding: chunked\r\n" in w.split(b"\r\n\r\n")[0] + b"\r\n"
